@@ -429,9 +429,14 @@ func repoGarbageCollect(repo Repo, conf config.Config, index types.Index, locked
 				subjExists = false
 			}
 			if *conf.Storage.GC.ReferrersWithSubj && subjExists {
-				// track a map of responses only preserved when their subject remains
-				subjects[dig] = d.Copy()
-				keep = false
+				if meta, err := repo.blobMeta(d.Digest, locked); err == nil && conf.Storage.GC.GracePeriod >= 0 && meta.mod.After(cutoff) {
+					// always keep new entries
+					keep = true
+				} else {
+					// track a map of responses only preserved when their subject remains
+					subjects[dig] = d.Copy()
+					keep = false
+				}
 			} else if !*conf.Storage.GC.ReferrersDangling {
 				// keep if dangling aren't GCed
 				keep = true
